@@ -172,7 +172,7 @@ Qed.
 (* ------------------------------------------------------------------ one krequest of the browser *)
 
 Definition same_mp (e : site_env) (mp : bytes) (q : breq) : Prop :=
-  let mp' := matching_path (e_paths e) (q_path q) in
+  let mp' := e_mp e (q_path q) in
   (cf_sso_server (e_cfg e) = true \/ eff_path mp' = eff_path mp) /\ (mp' = [] \/ wf_path mp').
 
 Definition kind_ok (e : site_env) (mp : bytes) (q : breq) (k : ckind) : Prop :=
@@ -394,31 +394,32 @@ Proof.
   constructor; [cbn; eapply parse_ingress_path_wf; eauto|now apply IH].
 Qed.
 
-Lemma matching_path_go_in paths req : forall result, matching_path_go paths req result = result \/ In (matching_path_go paths req result) paths.
+Lemma matching_path_go_in seg paths req : forall result,
+  matching_path_go seg paths req result = result \/ In (matching_path_go seg paths req result) paths.
 Proof.
   induction paths as [|p r IH]; intros result; cbn [matching_path_go]; [now left|].
   destruct (negb (nonempty p)); [destruct (IH result); auto; right; now right|].
-  destruct (has_prefix req p && Nat.ltb (length result) (length p)).
+  destruct (path_prefix_test seg req p && Nat.ltb (length result) (length p)).
   - destruct (IH p) as [H|H]; [right; left; now rewrite H|right; now right].
   - destruct (IH result); auto. right. now right.
 Qed.
 
 (* for a configuration whose ingresses parse, the matching path of any krequest is "" or starts with "/" *)
-Lemma matching_path_wf c ings req : parse_ingresses_full c = Some ings ->
-  matching_path (map snd ings) req = [] \/ wf_path (matching_path (map snd ings) req).
+Lemma matching_path_wf c ings seg req : parse_ingresses_full c = Some ings ->
+  matching_path seg (map snd ings) req = [] \/ wf_path (matching_path seg (map snd ings) req).
 Proof.
   intros H. unfold parse_ingresses_full in H. destruct (cf_ingresses c) as [|x l]; [discriminate|].
   pose proof (ingress_list_wf _ _ H) as Hw. unfold matching_path.
-  destruct (matching_path_go_in (map snd ings) req []) as [E|E]; [now left|].
+  destruct (matching_path_go_in seg (map snd ings) req []) as [E|E]; [now left|].
   apply in_map_iff in E as (hp & E1 & E2). rewrite <- E1.
   exact (proj1 (Forall_forall _ _) Hw hp E2).
 Qed.
 
 (* hence: with parsed ingresses, "all requests have the same matching ingress path" is all that kind_ok asks *)
 Lemma kind_ok_of_same_path c ings e mp q k : parse_ingresses_full c = Some ings -> e_cfg e = c -> e_ingresses e = ings ->
-  rq_kind k = true -> (cf_sso_server c = true \/ eff_path (matching_path (e_paths e) (q_path q)) = eff_path mp) ->
+  rq_kind k = true -> (cf_sso_server c = true \/ eff_path (e_mp e (q_path q)) = eff_path mp) ->
   kind_ok e mp q k.
 Proof.
   intros Hp Hc Hi Hk Hs. left. split; [exact Hk|]. unfold same_mp. rewrite Hc. split; [exact Hs|].
-  unfold e_paths. rewrite Hi. eapply matching_path_wf; eauto.
+  unfold e_mp, e_paths. rewrite Hi. eapply matching_path_wf; eauto.
 Qed.
